@@ -6,7 +6,7 @@ TRUSTED_BASE = [
     "hand-written Lean model (lean/GoBatcher/Model) and its atomicity/time assumptions (DESIGN.md 4.2)",
     "correspondence check: Go harness (harness/, testing/synctest virtual clock), generators, Lean driver parser; agreement of model and code is tested on the generated scenarios, not proved",
     "fact extractor (extract/): go/ast pattern matching",
-    "translators (extract/trans.go, transbuf.go, translm.go): the meaning they give to the Go subset they accept (GoSem: uint32 wrap explicit, 64-bit int overflow not modelled, math.Ceil of a quotient of doubles = integer ceiling for uint32 operands; HeapSem: heap of links nodes, nil dereference = failure, allocation appends; LmSem: SDK calls are inputs; a chan struct{} semaphore is the number of tokens in it; skipped: mutex calls, defer, event emission unless captured); they refuse what is outside the subset",
+    "translators (extract/trans.go, transbuf.go, translm.go, transcycle.go): the meaning they give to the Go subset they accept (GoSem: uint32 wrap explicit, 64-bit int overflow not modelled, math.Ceil of a quotient of doubles = integer ceiling for uint32 operands; HeapSem: heap of links nodes, nil dereference = failure, allocation appends; LmSem: SDK calls are inputs; a chan struct{} semaphore is the number of tokens in it; skipped: mutex calls, defer, event emission unless captured); they refuse what is outside the subset",
     "modelled, not verified: Go runtime (select, tickers, sync, context), math/rand, uuid, float64 arithmetic, azblob SDK, Azure Blob lease semantics",
 ]
 
